@@ -24,7 +24,8 @@ RULE = ("cases = (decimal_places 0..9, line ending, axis labels (default, relabe
         "non-motion calls (extrusion/feed mode, plane, units, comments) and "
         "other builders with a different configuration created meanwhile; an "
         "axis relabelled in the middle of the history (rename_axis / "
-        "format.set_axis_label); the conversion helpers to_absolute / "
+        "format.set_axis_label); the decimal places changed in the middle of "
+        "the history; the conversion helpers to_absolute / "
         "to_absolute_list / to_distance_mode; optionally axes limits in force so "
         "that calls are rejected mid-history; helpers compared with their documented "
         "formula and required to change nothing; the "
@@ -34,8 +35,9 @@ RULE = ("cases = (decimal_places 0..9, line ending, axis labels (default, relabe
 ASSUMPTIONS = [
     "machine semantics: G0/G1/G90/G91/G92/G28/G38.x as in vf/machine.py; the "
     "machine starts in absolute mode with unknown coordinates",
-    "tolerance per axis: (k+1)*U(dp) + (k+2)*8*ulp(largest magnitude seen), k "
-    "= relative increments since the axis was last assigned absolutely",
+    "tolerance per axis: U(dp in force when the axis was last assigned "
+    "absolutely) + sum of U(dp) over the relative increments since + U(current "
+    "dp) + (k+2)*8*ulp(largest magnitude seen), k = number of those increments",
     "a tracer request the library rejects with ValueError (numerically "
     "invalid geometry) is a rejected call, not a violation; position "
     "agreement is still required afterwards",
@@ -49,13 +51,30 @@ LEVEL_TEXT = ("Generated call histories (thousands per run, shrunk on failure) "
 
 def make_checker(s, ctx_classes):
     st = {"maxmag": 1.0, "motion_seen": False}
+    # rounding budget per axis: the precision in force when the axis was last
+    # assigned absolutely, plus the precision of every relative step since
+    # (the precision may change in the middle of a history)
+    budget = {a: Fraction(0) for a in "XYZ"}
+    steps_seen = {a: 0 for a in "XYZ"}
+    s.budget = budget
+
+    def account(words, raw):
+        m = s.machine
+        for a in "XYZ":
+            if m.rel_steps[a] == 0:
+                if any(m.labels.get(w.letter) == a for w in words) or m.pos[a] is None:
+                    budget[a] = s.U
+                    steps_seen[a] = 0
+            elif m.rel_steps[a] != steps_seen[a]:
+                budget[a] += s.U * (m.rel_steps[a] - steps_seen[a])
+                steps_seen[a] = m.rel_steps[a]
 
     def check(op, exc):
         g, m = s.g, s.machine
         name = op["op"]
         if exc is not None:
             ctx_classes.add("call_raised:" + type(exc).__name__)
-        s.poll()
+        s.poll(account)
         pos = g.position
         for a, v in zip("XYZ", pos):
             if v is not None:
@@ -65,7 +84,7 @@ def make_checker(s, ctx_classes):
             if mv is None or v is None:
                 continue
             k = m.rel_steps[a]
-            tol = (k + 1) * s.U + Fraction((k + 2) * 8 * ulp(st["maxmag"]))
+            tol = budget[a] + s.U + Fraction((k + 2) * 8 * ulp(st["maxmag"]))
             if abs(mv - Fraction(float(v))) > tol:
                 raise Violation(
                     f"after {op!r}: machine {a}={float(mv)!r} but builder reports "
@@ -122,6 +141,12 @@ def make_before(s, classes):
             s.axis_labels[ax] = lab.strip().upper()
             s.machine.labels = {l: a for a, l in s.axis_labels.items()}
             classes.add("relabelled_mid_history")
+        elif op["op"] == "precision":
+            s.poll(getattr(s, "_account", None))
+            g.format.set_decimal_places(op["dp"])
+            s.dp = op["dp"]
+            s.U = Fraction(1, 2) / (Fraction(10) ** op["dp"])
+            classes.add("decimal_places_changed_mid_history")
         elif op["op"] == "query":
             from gscrib.geometry import Point
             pos = tuple(g.position)
